@@ -3906,6 +3906,9 @@ class Parameters:
                 raise AttributeError(f"Attribute {attr!r} could not be resolved on {src}.")
         elif getattr(src, "abstract", None):
             return [], [] if intermediate == 'only' else [DInfo(spec=spec)]
+        elif inst is not None and isinstance(inst, Parameterized) and not inst._param__private.initialized:
+            # an empty shell that is still being restored (copy, pickle)
+            raise _PartiallyInitialized(f"Attribute {attr!r} could not be resolved on {src} yet.")
         else:
             raise AttributeError(f"Attribute {attr!r} could not be resolved on {src}.")
 
@@ -5768,7 +5771,14 @@ class Parameterized(metaclass=ParameterizedMetaclass):
                 # (one of its sub-objects is the object whose restoration
                 # brought this one about, see above)
                 continue
-            _awaiting_subobjects.remove(ref)
+            except Exception:
+                # not to be tried again by every later restoration
+                _awaiting_subobjects[:] = [r for r in _awaiting_subobjects if r is not ref]
+                if obj is self:
+                    raise
+                continue
+            # (by identity: live weakrefs compare like their referents)
+            _awaiting_subobjects[:] = [r for r in _awaiting_subobjects if r is not ref]
 
     @_recursive_repr()
     def __repr__(self):
